@@ -245,35 +245,28 @@ def boundary_variant(case, rnd):
 
 # ------------------------------------------------------------------ the direct oracle
 def expected_rates(case, obs, step):
-    """rates the property prescribes for the loci as they were when the distribution was pulled:
-    list of (expected rate, kind, p) in eventRateDistribution order, or None when not applicable"""
+    """rates the property prescribes for the loci as they were when the distribution was pulled, one entry
+    (locus name, event name, rate) per registered event; compared as a multiset (the order is not part of the law)"""
     loci = step['loci']
+    out = []
     if case['kind'] == 'table':
         tb = case['table']
-        elem, fixed = [], []
         for pi, p in enumerate(tb['procs']):
-            for ev in p['events']:
+            for j, ev in enumerate(p['events']):
                 n = len(loci['L%d' % ev['locus']])
-                if ev['kind'] == 'elem':
-                    elem.append((Fraction(ev['p']) * n, 'elem', ev['p']))
-                else:
-                    fixed.append((Fraction(ev['p']), 'fixed', ev['p']))
-        return elem + fixed
+                out.append(('L%d' % ev['locus'], 'ev%d_%d' % (pi, j), Fraction(ev['p']) * n if ev['kind'] == 'elem' else Fraction(ev['p'])))
+        return out
     regs = obs.get('registration') or {}
-    elem, fixed = [], []
     for pi in sorted(regs):
         for r in regs[pi]:
-            if r['kind'] == 'elem':
-                elem.append((Fraction(r['p']) * len(step['loci_list'][r['li']]), 'elem', r['p']))
-            else:
-                fixed.append((Fraction(r['p']), 'fixed', r['p']))
+            out.append((r['locus'], r['name'], Fraction(r['p']) * len(step['loci_list'][r['li']]) if r['kind'] == 'elem' else Fraction(r['p'])))
     if case['model'] == 'SIR_VariableInfection':
+        import epydemic
         infl = obs['snaps'][0].get('infectivity', {}) if obs.get('snaps') else {}
-        si = [ls[0] for ls in obs['loci_specs'] if ls[1] == 'edge']
-        for e in (loci[si[0]] if si else []):
-            pr = infl.get(tuple(sorted(e)))
-            elem.append((Fraction(pr) if pr is not None else None, 'elem', pr))
-    return elem + fixed
+        si = [i for i, ls in enumerate(obs['loci_specs']) if ls[1] == 'edge']
+        for e in (step['loci_list'][si[0]] if si else []):
+            out.append((None, epydemic.SIR.INFECTED, Fraction(infl[tuple(sorted(e))])))
+    return out
 
 
 def direct_c02(case, obs):
@@ -290,10 +283,10 @@ def direct_c02(case, obs):
         ctx = {'step': k, 't': s['t'], 'rates': rates, 'names': s['names'], 'rands': s['rands']}
         # -- the rate table
         exp = expected_rates(case, obs, s)
-        if exp is not None:
-            if len(exp) != n or any(x[0] is not None and Fraction(r) != x[0] for r, x in zip(rates, exp)):
-                v.append({'signature': 'rate-table-differs:' + tag, 'detail': dict(ctx, expected=[str(x[0]) for x in exp])})
-                continue
+        got = [(s['tloci'][i], s['names'][i], Fraction(rates[i])) for i in range(n)]
+        if sorted(exp, key=str) != sorted(got, key=str):
+            v.append({'signature': 'rate-table-differs:' + tag, 'detail': dict(ctx, expected=[[x[0], x[1], str(x[2])] for x in exp])})
+            continue
         if any(r < 0 for r in rates):
             v.append({'signature': 'negative-rate:' + tag, 'detail': ctx})
             continue
@@ -341,9 +334,10 @@ def direct_c02(case, obs):
         elif j not in ok:
             v.append({'signature': 'kind-interval-does-not-contain-threshold:' + tag, 'detail': ctx})
         # -- the element: emptiness guard, one draw, membership
-        size = s['lens'][-1][1] if s['lens'] else None
+        # size of the chosen locus when the loop looked at it (or, if it never asked, when it drew)
+        size = s['lens'][-1][1] if s['lens'] else (len(s['draws'][0][1]) if s['draws'] else None)
         if size is None:
-            v.append({'signature': 'locus-size-not-consulted:' + tag, 'detail': ctx})
+            v.append({'signature': 'event-without-draw:' + tag, 'detail': ctx})
         elif size == 0:
             if s['draws'] or s['fired']:
                 v.append({'signature': 'event-on-empty-locus:' + tag, 'detail': ctx})
@@ -376,8 +370,8 @@ class H(Harness):
     TIE_IMPORT = 'From EpyV Require Import Model.Kernel Model.Loci Model.Compart Tie.Kernel Tie.Compart Tie.C02.\nOpen Scope Q_scope.'
     CHECK_FN = 'EpyV.Tie.C02.check_case'
     VO_TARGETS = ['Properties/C02.vo', 'Tie/C02.vo']
-    QUICK_N = 420
-    THOROUGH_N = 4200
+    QUICK_N = 360
+    THOROUGH_N = 3600
     CASE_TIMEOUT = 30
     ALLOWED_AXIOMS = {'ClassicalDedekindReals.sig_forall_dec', 'ClassicalDedekindReals.sig_not_dec',
                       'FunctionalExtensionality.functional_extensionality_dep', 'Classical_Prop.classic'}
